@@ -107,6 +107,39 @@ def run_identities(n, choice, acc, only=None):
                           detail='assignment %s' % r['mismatch'])
 
 
+def run_special(n, acc, only=None):
+    """degenerate control-point tuples (leading coefficients exactly zero, coincident points): a
+    value-dependent shortcut is invisible to the grid lemma, so these are evaluated explicitly"""
+    G = lambda a, b=0: GQ(Fraction(a), Fraction(b))
+    assigns = [[G(i, 2 * i) for i in range(n + 1)], [G(0)] * (n + 1), [G(3, -1)] * n + [G(5, 2)], [G(2, 1)] * (n + 1)]
+    if n >= 2:
+        assigns.append([G(0), G(1, 2)] + [G(2 * i, 4 - i) for i in range(1, n)])
+    for name, variables, impl, ref in identities(n):
+        if only and name != only:
+            continue
+        for ai, pts_ in enumerate(assigns):
+            for t in (Fraction(0), Fraction(1, 2), Fraction(1), Fraction(5, 4)):
+                if 't' not in variables and t != 0:
+                    continue
+                kw = dict(zip(pv(n), pts_))
+                if 't' in variables:
+                    kw['t'] = t
+                if name == 'bernstein_partition':
+                    kw = {'t': t}
+                if name == 'polynomial2bezier_poly1d' and all(q == 0 for q in pts_[:-1]):
+                    continue        # a constant polynomial: outside the documented domain (degree 1..3)
+                case = {'what': 'special', 'degree': n, 'identity': name, 'assignment': ai, 't': str(t)}
+                acc.case(case, cls='special/deg%d' % n)
+                try:
+                    same = gridproof.eq_exact(impl(**kw), ref(**kw))
+                    err = None
+                except Exception as e:
+                    same, err = False, '%s: %s' % (type(e).__name__, e)
+                if not same:
+                    acc.violation('identity_fails_on_degenerate_input', {'helper': name, 'degree': n if n > 3 else 'le3'}, case,
+                                  observed=err or repr(gridproof.flatten(impl(**kw)))[:300], expected=repr(gridproof.flatten(ref(**kw)))[:300])
+
+
 def run_arc_delegation(acc):
     a = Arc(0j, 3 + 1j, 30, 1, 1, 2 + 2j)
     for t in (0.0, 0.25, 0.5, 1.0):
@@ -266,20 +299,22 @@ def run_limits(acc):
                     for g1 in g1s:
                         if f1(t0) == 0 or g1(t0) == 0:
                             continue
-                        f = f1 * (X - t0) ** m
-                        g = g1 * (X - t0) ** k
-                        case = {'what': 'limit', 't0': t0, 'm': m, 'k': k, 'f1': list(map(float, f1.coeffs)),
-                                'g1': list(map(float, g1.coeffs))}
-                        r = outcome(lambda: rational_limit(f, g, t0))
-                        rel = 'equal' if m == k else ('f_higher' if m > k else 'g_higher')
-                        acc.case(case, cls='limit/' + rel)
-                        if m < k:
-                            if r != ('exc', 'ValueError'):
-                                acc.violation('limit_should_not_exist', {'relation': rel}, case, observed=r, expected='ValueError')
-                            continue
-                        exact = Fraction(0) if m > k else F(float(f1(t0))) / F(float(g1(t0)))
-                        if r[0] != 'ok' or abs(float(r[1]) - float(exact)) > 1e-12 * max(1.0, abs(float(exact))):
-                            acc.violation('limit_wrong', {'relation': rel}, case, observed=r, expected=float(exact))
+                        # power-of-two scales keep every evaluation exact; the limit does not depend on them
+                        for sc in (1.0, 2.0 ** -40, 2.0 ** 40):
+                            f = (f1 * sc) * (X - t0) ** m
+                            g = (g1 * sc) * (X - t0) ** k
+                            case = {'what': 'limit', 't0': t0, 'm': m, 'k': k, 'f1': list(map(float, f1.coeffs)),
+                                    'g1': list(map(float, g1.coeffs)), 'scale': sc}
+                            r = outcome(lambda: rational_limit(f, g, t0))
+                            rel = 'equal' if m == k else ('f_higher' if m > k else 'g_higher')
+                            acc.case(case, cls='limit/' + rel)
+                            if m < k:
+                                if r != ('exc', 'ValueError'):
+                                    acc.violation('limit_should_not_exist', {'relation': rel, 'scaled': sc != 1.0}, case, observed=r, expected='ValueError')
+                                continue
+                            exact = Fraction(0) if m > k else F(float(f1(t0))) / F(float(g1(t0)))
+                            if r[0] != 'ok' or abs(float(r[1]) - float(exact)) > 1e-12 * max(1.0, abs(float(exact))):
+                                acc.violation('limit_wrong', {'relation': rel, 'scaled': sc != 1.0}, case, observed=r, expected=float(exact))
 
 
 # ---------------------------------------------------------------- harness interface
@@ -305,6 +340,7 @@ def shards(tier, seed):
     out.sort(key=lambda d: (-(d['degree']), 0 if d.get('only') == 'split_bezier' else 1))
     out += [{'what': 'roots', 'shard': i} for i in range(NROOT_SHARDS)]
     out += [{'what': 'limits'}, {'what': 'arc'}]
+    out += [{'what': 'special', 'degree': n} for n in range(0, 9)]
     return out
 
 
@@ -315,6 +351,8 @@ def run_shard(desc, tier, seed):
         run_identities(desc['degree'], desc['choice'], acc, only=desc.get('only'))
     elif desc['what'] == 'roots':
         run_roots(desc['shard'], NROOT_SHARDS, tp['maxperm'], tp['maxdeg'], acc)
+    elif desc['what'] == 'special':
+        run_special(desc['degree'], acc)
     elif desc['what'] == 'limits':
         run_limits(acc)
     else:
@@ -370,6 +408,9 @@ def replay(case):
             np.roots = old
             _ENV['perm'] = None
             _ENV['cache'] = None
+    elif case['what'] == 'special':
+        run_special(case['degree'], acc, only=case['identity'])
+        acc.vlist = [v for v in acc.vlist if v['case'] == case]
     elif case['what'] == 'limit':
         run_limits(acc)
         acc.vlist = [v for v in acc.vlist if v['case'] == case]
